@@ -9,7 +9,7 @@ RULE = ('cases: slip.spec sof payload (encoder output == specification of the en
         'scripts and both driver styles / slip.dec sof start-state stream scripts styles ncalls (repeated decode calls until the stream is exhausted; per call: '
         'return code - exact errno for passed-through errors -, octets emitted in that call, source position, decoder state).  Generation: all strings over '
         '{END, ESC, ESC_END, ESC_ESC, 0x41} up to length 6 (quick) / 8 (thorough) as payloads, as raw decoder input from each start state, and as garbage '
-        'prefixes followed by well-formed frames; random full-alphabet payloads up to 1 KiB; a source or sink error injected at every position.  '
+        'prefixes followed by well-formed frames; every one of the 256 octet values after ESC, as data and next to END in every decoder state; random raw decoder input over the full alphabet; random full-alphabet payloads up to 1 KiB; a source or sink error injected at every position.  '
         'Non-trivial: non-empty stream/payload.')
 TRUSTED_BASE = TB_COMMON + ['Model/Slip.v hand-written from src/rfc1055.c; tie = correspondence']
 ASSUMPTIONS = ['drivers returning 0 from a single-octet call are outside the modelled domain (rfc1055_decode_octet would use an uninitialised octet)']
@@ -58,6 +58,21 @@ def gen(rng, tier):
         yield 'slip.spec %d %s' % (sof, hexs(p))
         e = enc(sof, p) + enc(sof, p[: n // 2])
         yield 'slip.dec %d %d %s l: l: %d %d 3' % (sof, 0 if sof else 2, hexs(e), rng.randrange(2), rng.randrange(2))
+    # every octet value in every role of the raw decoder input: after ESC, as data, before / after END, in all three states
+    for x in range(256):
+        for sof in (0, 1):
+            for st in (0, 1, 2):
+                yield 'slip.dec %d %d %s l: l: %d %d 4' % (sof, st, hexs([0x61, 0xdb, x, 0x62, 0xc0, 0x63, 0xc0]), x & 1, (x >> 1) & 1)
+            yield 'slip.dec %d %d %s l: l: 1 0 4' % (sof, 0 if sof else 2, hexs([0xc0, x, 0xc0, 0xdb, x, 0xc0, x, x, 0xc0]))
+            yield 'slip.trace %d %d %s' % (sof, x % 3, hexs([x, 0xdb, x, 0xc0, 0x41, 0xdb, x, 0xc0, 0xc0, x, 0xc0]))
+        yield 'slip.spec %d %s' % (x & 1, hexs([x, 0xc0, x, 0xdb, x]))
+    # random raw decoder input over the full octet alphabet (control octets frequent)
+    for _ in range(3000 if big else 400):
+        n = rng.choice([1, 2, 3, 5, 9, 17, 40])
+        raw = [rng.choice([0xc0, 0xdb, 0xdc, 0xdd, rng.randrange(256), rng.randrange(256), rng.randrange(0xd8, 0xe2)]) for _ in range(n)]
+        sof = rng.randrange(2)
+        yield 'slip.dec %d %d %s l: l: %d %d %d' % (sof, rng.randrange(3), hexs(raw), rng.randrange(2), rng.randrange(2), n + 2)
+        yield 'slip.trace %d %d %s' % (sof, rng.randrange(3), hexs(raw))
     # error injection at every position (source and sink), encode and decode
     errs = [5, 32, 12, 84, 4, 11, 61]
     for _ in range(400 if big else 60):
